@@ -3,6 +3,8 @@ package main
 import (
 	"go/ast"
 	"go/types"
+
+	"golang.org/x/tools/go/cfg"
 )
 
 // short aliases keep the rule files readable
@@ -12,6 +14,7 @@ type (
 	astCall   = ast.CallExpr
 	astSel    = ast.SelectorExpr
 	astIdent  = ast.Ident
+	cfgBlock  = cfg.Block
 	typesFunc = types.Func
 )
 
